@@ -292,8 +292,13 @@ class Plane:
         if ptt_vector is None or plane.opd.size == 1:
             return plane
 
+        # the fit is over the samples inside the mask only (whatever the OPD
+        # array holds elsewhere - a file's fill value - is not part of it)
+        opd_flat = np.asarray(plane.opd).ravel()
+
         if self.size == 1:
-            t = np.linalg.lstsq(ptt_vector.T, plane.opd.ravel(), rcond=None)[0]
+            inside = np.flatnonzero(ptt_vector[0])
+            t = np.linalg.lstsq(ptt_vector[:, inside].T, opd_flat[inside], rcond=None)[0]
             opd_tilt = np.einsum('ij,i->j', ptt_vector[1:3], t[1:3])
             # (a new array, like the segmented branch below: the Plane may
             # hold the caller's own OPD array, which must keep its values)
@@ -306,7 +311,8 @@ class Plane:
 
             # iterate over the segments and compute the tilt term
             for seg in np.arange(self.size):
-                t[seg] = np.linalg.lstsq(ptt_vector[3 * seg:3 * seg + 3].T, plane.opd.ravel(),
+                inside = np.flatnonzero(ptt_vector[3 * seg])
+                t[seg] = np.linalg.lstsq(ptt_vector[3 * seg:3 * seg + 3, inside].T, opd_flat[inside],
                                          rcond=None)[0]
                 seg_tilt = np.einsum('ij,i->j', ptt_vector[3 * seg + 1:3 * seg + 3], t[seg, 1:3])
                 opd_no_tilt[seg] = (plane.opd - seg_tilt.reshape(plane.opd.shape)) * self.mask[seg]
